@@ -283,9 +283,9 @@ func (s *JSONDB) newFile(dagFile string, t time.Time, requestID string) (string,
 func (s *JSONDB) latestToday(dagFile string, day time.Time, latestStatusToday bool) (string, error) {
 	var pattern string
 	if latestStatusToday {
-		pattern = fmt.Sprintf("%s.%s*.*.dat", s.prefixWithDirectory(dagFile), day.Format(dateFormat))
+		pattern = fmt.Sprintf("%s.%s*.*.dat", escapeGlob(s.prefixWithDirectory(dagFile)), day.Format(dateFormat))
 	} else {
-		pattern = fmt.Sprintf("%s.*.*.dat", s.prefixWithDirectory(dagFile))
+		pattern = fmt.Sprintf("%s.*.*.dat", escapeGlob(s.prefixWithDirectory(dagFile)))
 	}
 	matches, err := filepath.Glob(pattern)
 	if err != nil || len(matches) == 0 {
@@ -307,8 +307,18 @@ func (s *JSONDB) latest(pattern string, n int) []string {
 }
 
 func (s *JSONDB) globPattern(dagFile string) string {
-	return s.prefixWithDirectory(dagFile) + "*" + extDat
+	return escapeGlob(s.prefixWithDirectory(dagFile)) + "*" + extDat
 }
+
+// escapeGlob escapes the glob metacharacters in a literal path so that
+// it can be used as a part of a pattern for filepath.Glob.
+func escapeGlob(path string) string {
+	return globSpecialChars.Replace(path)
+}
+
+var globSpecialChars = strings.NewReplacer(
+	`\`, `\\`, `*`, `\*`, `?`, `\?`, `[`, `\[`,
+)
 
 func (s *JSONDB) prefixWithDirectory(dagFile string) string {
 	p := prefix(dagFile)
